@@ -32,6 +32,8 @@ def reshape(store: Any, layout: str) -> None:
     These are the shapes edit histories leave behind (a block grown by insertions next to one shrunk by removals);
     the next removal from a small block makes the store merge it with a big neighbour and rebalance the pair, the
     next insertion into a big one makes it split.  Token order and identity are untouched."""
+    if not (hasattr(store, '_blocks') and hasattr(ts, '_StoreBlock') and hasattr(ts._StoreBlock, 'from_tokens')):
+        return      # the private layout this relies on is gone: keep the store as the parser built it
     toks = list(store)
     if not toks:
         return
